@@ -73,6 +73,17 @@ def profile(name):
         p['res_cap'] = (1, 3)
         p['ops_w'].update({'add_capacity': 4, 'fail': 2, 'work_order': 2})
         p['n_sources'] = (1, 3)
+    elif name == 'resfaults':     # C11 / C03: contention for pools under dense shutdown / failure / work-order scripts
+        p['stage_w'].update({'processor': 9, 'group': 1.2, 'handler': 1, 'buffer': 2, 'gates': 0.7, 'batcher': 0.3})
+        p['p_resources'] = 1.0
+        p['n_resources'] = (1, 2)
+        p['res_cap'] = (1, 2)
+        p['n_sources'] = (1, 3)
+        p['script_rate'] = 1.5
+        p['ops_w'].update({'fail': 3, 'shutdown': 3, 'restore': 4, 'work_order': 3.5, 'add_capacity': 2.5,
+                           'block': 1, 'unblock': 1, 'rewire': 0.1, 'offset_cycle': 0.3})
+        p['p_maintainer'] = 0.95
+        p['p_same_instant'] = 0.4
     elif name == 'batching':      # C17
         p['stage_w'].update({'batcher': 7, 'buffer': 3, 'group': 0.3, 'nested_group': 0, 'gates': 0.7})
         p['p_batch_source'] = 0.5
@@ -347,6 +358,10 @@ class Gen:
         rng = self.rng
         p = self.p
         procs = [i['id'] for i in self.items if i['kind'] == 'processor']
+        # processors that need resources are the interesting fault targets when pools are in play
+        res_procs = [i['id'] for i in self.items if i['kind'] == 'processor' and i.get('res')]
+        if res_procs:
+            procs = procs + res_procs * 2
         handlers = [i['id'] for i in self.items if i['kind'] in ('handler', 'processor')]
         blockable = [i['id'] for i in self.items if i['kind'] in ('handler', 'processor', 'buffer', 'gate',
                                                                     'flow', 'path', 'sink', 'batcher')]
@@ -404,6 +419,12 @@ class Gen:
                 e['target'] = b           # b gets a as an additional upstream
                 e['new_up'] = a
             ops.append(e)
+        # a failure requested while the machine is already shut down for maintenance (a FAIL event scheduled
+        # earlier would have been paused with the machine's other events)
+        for e in list(ops):
+            if e['op'] in ('shutdown', 'work_order') and rng.random() < 0.3:
+                ops.append({'t': min(horizon, e['t'] + rng.choice([0, 0.25, 0.5, 1, 1.5])), 'prio': rng.choice(PRIOS),
+                            'op': 'fail', 'target': e['target']})
         # a failure is usually followed by a restore some time later (else the line just dies)
         for e in list(ops):
             if e['op'] in ('fail', 'shutdown') and rng.random() < 0.8:
@@ -483,7 +504,16 @@ def generate_fanout(seed, tie='prng'):
     items.append({'id': 'S1', 'kind': 'source', 'ct': rng.choice([0.25, 0.5, 0.5, 1]), 'budget': None,
                   'values': [1, 2], 'qualities': [1]})
     sender = 'S1'
-    if rng.random() < 0.5:
+    burst = rng.random() < 0.3
+    if burst:
+        # bursts: batches unpacked into a delay buffer mature together, so the buffer releases several
+        # parts in ONE event and has to re-rank its downstreams after each hand-over
+        items[0]['batch'] = [rng.choice([2, 3, 4])]
+        items[0]['ct'] = rng.choice([1, 1.5, 2, 3])
+        items.append({'id': 'T2', 'kind': 'batcher', 'up': ['S1'], 'size': None})
+        items.append({'id': 'B2', 'kind': 'buffer', 'up': ['T2'], 'cap': None, 'delay': rng.choice([0.5, 1, 2])})
+        sender = 'B2'
+    elif rng.random() < 0.5:
         items.append({'id': 'H2', 'kind': 'handler', 'up': ['S1'], 'ct': rng.choice([0, 0.25, 0.5])})
         sender = 'H2'
     elif rng.random() < 0.4:
@@ -495,6 +525,8 @@ def generate_fanout(seed, tie='prng'):
         pid = f'X{j + 3}'
         kind = rng.choice(['handler', 'handler', 'processor', 'sink'])
         ct = rng.choice([0.5, 0.75, 1, 1.5, 2, 2.5, 3, 0.625, 1.125])
+        if burst and j == 0:
+            kind, ct = 'sink', 0
         if kind == 'processor':
             items.append({'id': pid, 'kind': 'processor', 'up': [sender], 'ct': ct, 'res': None,
                           'wo': {'x': [1, 0, 0], 'y': [0.5, 0, 0]}})
